@@ -480,7 +480,7 @@ def check_C12(tier):
         v = E.lib_view(f)
         h, n = E.r_dropped_failure(v)
         obs = E.hits_to_obs("R12.1", R, h, n)
-        rep.floor("%s: fallible call sites" % cfg, n, 40)
+        rep.floor("%s: fallible call sites" % cfg, n, 20)
         obs += [o for o in K.table_rules(f) if o.key.startswith(("LARGE_POW5", "SMALL_INT_POW5"))]
         h, n = E.r_wrapping_arith(v, "minimal_lexical::bigint::", WRAP_OK)
         obs += E.hits_to_obs("R12.4", R4, h, n)
